@@ -31,8 +31,7 @@ deriving Repr, DecidableEq
 
 /-- `new_size = 2*alloc; if (min > 0 && new_size < alloc+min) new_size += min` -/
 def grow (alloc min : Nat) : Nat :=
-  let n := 2 * alloc
-  if 0 < min ∧ n < alloc + min then n + min else n
+  if 0 < min ∧ 2 * alloc < alloc + min then 2 * alloc + min else 2 * alloc
 
 /-- one event: the new state and whether the event wrote at or beyond an allocated length -/
 def step (b : B) : Ev → B × Bool
